@@ -98,7 +98,7 @@ Qed.
 Lemma read_of_prefix p : ~ In LF p -> read_of p = if negb (utf8_valid p) then RErr IoUtf8 (N.of_nat (length p)) else ROk (N.of_nat (length p)) p.
 Proof.
   intros H. unfold read_of. destruct (negb (utf8_valid p)); [reflexivity|]. f_equal.
-  unfold strip_eol. destruct (rev p) as [|y r] eqn:Er; [reflexivity|].
+  rewrite strip_eol_rev. destruct (rev p) as [|y r] eqn:Er; [reflexivity|].
   destruct (y =? LF) eqn:E; [|reflexivity]. apply N.eqb_eq in E. subst y. exfalso. apply H. apply in_rev. rewrite Er. left. reflexivity.
 Qed.
 
